@@ -45,30 +45,34 @@ var c04MSCalls atomic.Int64
 
 func (r *c04Fake) ItemsCount() int { return len(r.ids) }
 
+// Like the real request types (logsRequest, tracesRequest, metricsRequest, profilesRequest): MergeSplit MUTATES.  The data of
+// the other request is moved into the receiver (the other request is left empty), the pieces are cut off the front of
+// the receiver, and the receiver itself — now holding only what is left — is the LAST element of the result.  Anything
+// that reads the receiver (ItemsCount, size) after the call sees the last piece, not what was parked.
 func (r *c04Fake) MergeSplit(_ context.Context, max int, _ request.SizerType, other request.Request) ([]request.Request, error) {
 	c04MSCalls.Add(1)
 	if r.foreign {
 		return nil, errors.New("invalid input type")
 	}
 	l := append([]int(nil), r.ids...)
+	keep := 0
 	if other != nil {
 		o := other.(*c04Fake)
 		if o.foreign {
 			return nil, errors.New("invalid input type")
 		}
 		l = append(l, o.ids...)
-	}
-	if max == 0 {
-		return []request.Request{&c04Fake{ids: l}}, nil
-	}
-	// like the real extraction (a greedy prefix), the first result takes everything the receiver already held
-	// (it fitted into max before) and possibly nothing of the other request
-	keep := 0
-	if other != nil {
+		o.ids = nil
+		// like the real extraction (a greedy prefix), the first result takes everything the receiver already held
+		// (it fitted into max before) and possibly nothing of the other request
 		keep = len(r.ids)
 		if keep > max {
 			keep = max
 		}
+	}
+	if max == 0 {
+		r.ids = l
+		return []request.Request{r}, nil
 	}
 	var out []request.Request
 	for len(l) > max {
@@ -83,7 +87,8 @@ func (r *c04Fake) MergeSplit(_ context.Context, max int, _ request.SizerType, ot
 		out = append(out, &c04Fake{ids: l[:c:c]})
 		l = l[c:]
 	}
-	return append(out, &c04Fake{ids: l}), nil
+	r.ids = l
+	return append(out, r), nil
 }
 
 type c04Flight struct {
@@ -280,6 +285,19 @@ func c04History(out *vOut, r *vRand, timerMode bool) error {
 		switch {
 		case k == 0:
 			n := r.Pick(1, 3, 3, 2, 2, 1, 1, 1, 0, 1, 0, 1, 0, 1) // 0..7, sometimes 9, 11, 13 ids
+			if max > 0 && r.Intn(3) == 0 {
+				// something is parked and the merge comes to a whole number of full results: with results filled to
+				// max the first and the last result then hold the same number of ids
+				qb.currentBatchMu.Lock()
+				p := 0
+				if qb.currentBatch != nil {
+					p = len(qb.currentBatch.req.(*c04Fake).ids)
+				}
+				qb.currentBatchMu.Unlock()
+				if p > 0 && p < max {
+					n = (2+r.Intn(2))*max - p
+				}
+			}
 			ids := make([]int, n)
 			for i := range ids {
 				nextID++
